@@ -1,3 +1,6 @@
+import SF.Lemmas.PfeSuffix
+import SF.Lemmas.RocSuffix
+import SF.Props.C11
 import SF.Props.C02
 import SF.Lemmas.SpecFacts
 import SF.Lemmas.Cog
@@ -148,6 +151,27 @@ theorem sma_forgets_prefix (N : Nat) (hN : 0 < N) (p p' w : List α) (hw : N ≤
     have h1 : q.length + w.length - N = q.length + (w.length - N) := by omega
     rw [h1, ← List.drop_drop, List.drop_left]
   exact sma_suffix N hN _ _ (by simp; omega) (by simp; omega) (by rw [e p, e p'])
+
+section pfe_roc
+variable [Transc α]
+/-- **PFE over an M-window simple moving average is a function of the last N + M − 1 values** (spec level; the state machine
+equals the spec by C11 `pfe_sma_eq`) -/
+theorem pfe_sma_suffix (N M' : Nat) (hN : 3 ≤ N) (hM : 1 ≤ M') (xs ys : List α)
+    (hx : N + M' - 1 ≤ xs.length) (hy : N + M' - 1 ≤ ys.length) (h : lastN (N + M' - 1) xs = lastN (N + M' - 1) ys) :
+    Spec.pfe N (Spec.sma M') xs = Spec.pfe N (Spec.sma M') ys := PfeSuffix.pfe_sma_suffix N M' hN hM xs ys hx hy h
+
+/-- … and so the view: two histories that agree on their last N + M − 1 values give the same PFE output -/
+theorem pfe_sma_view_suffix (N M' : Nat) (hN : 3 ≤ N) (hM : 1 ≤ M') (xs ys : List α)
+    (hx : N + M' - 1 ≤ xs.length) (hy : N + M' - 1 ≤ ys.length) (h : lastN (N + M' - 1) xs = lastN (N + M' - 1) ys) :
+    (pfeCoreU N (overEcho (smaCore (α := α) M'))).outAfter xs = (pfeCoreU N (overEcho (smaCore (α := α) M'))).outAfter ys := by
+  rw [C11.pfe_sma_eq N M' hN hM, C11.pfe_sma_eq N M' hN hM, PfeSuffix.pfe_sma_suffix N M' hN hM xs ys hx hy h]
+
+/-- **Roc forgets everything older than N + 1 values, unless its base x(t−N) is 0** — then it is explicitly holding its
+previous output, the one exception the property names -/
+theorem roc_suffix (N : Nat) (xs ys : List α) (hx : N + 1 ≤ xs.length) (hy : N + 1 ≤ ys.length)
+    (h : lastN (N + 1) xs = lastN (N + 1) ys) (hbase : (lastN (N + 1) xs).headD 0 ≠ 0) :
+    Spec.roc N xs = Spec.roc N ys := RocSuffix.roc_suffix N xs ys hx hy h hbase
+end pfe_roc
 
 end SF.C03
 
